@@ -150,6 +150,31 @@ def op_data(op: dict, tag: str):
     return d, ctl
 
 
+def _split(d: dict):
+    """Positional mapping + keyword arguments; the keyword value wins over a positional decoy."""
+    keys = sorted(d)
+    pos = {k: d[k] for k in keys[::2]}
+    kws = {k: d[k] for k in keys[1::2]}
+    if kws:
+        pos[next(iter(kws))] = "DECOY"
+    return pos, kws
+
+
+def _ctx_args(t, op, d):
+    """An application driving render_with_context(_async) itself: own context, own buffer,
+    extra namespace arguments, partial / block_scope flags."""
+    import io
+
+    from liquid2 import RenderContext
+
+    pos, kws = _split(d)
+    c = op.get("ctx") or {}
+    ns_names = [k for k in sorted(kws) if c.get("ns")][:2]
+    ns = {k: kws.pop(k) for k in ns_names}
+    ctx = RenderContext(t, global_data=t.make_globals({**pos, **kws}))
+    return ctx, io.StringIO(), ns, {"partial": bool(c.get("partial")), "block_scope": bool(c.get("block_scope"))}
+
+
 def _kw(plan, op):
     kw = {}
     if op.get("ns_kw"):
@@ -171,6 +196,16 @@ def sync_op(w: World, op: dict) -> tuple:
             if k == "render":
                 d, ctl = op_data(op, "d")
                 ident = (t.name, str(t.path), t.full_name())
+                call = op.get("call", "kw")
+                if call == "pos":
+                    return ("ok", common.norm(t.render(d)), ident)
+                if call == "poskw":
+                    pos, kws = _split(d)
+                    return ("ok", common.norm(t.render(pos, **kws)), ident)
+                if call == "ctx":
+                    ctx, buf, ns, flags = _ctx_args(t, op, d)
+                    n = t.render_with_context(ctx, buf, ns, **flags)
+                    return ("ok", common.norm(buf.getvalue()), ident, n)
                 return ("ok", common.norm(t.render(**d)), ident)
             if k == "analyze":
                 return ("ok", canon_analysis(t.analyze(include_partials=op.get("partials", True))))
@@ -200,6 +235,16 @@ async def async_op(w: World, op: dict) -> tuple:
         if k == "render":
             d, ctl = op_data(op, "d")
             ident = (t.name, str(t.path), t.full_name())
+            call = op.get("call", "kw")
+            if call == "pos":
+                return ("ok", common.norm(await t.render_async(d)), ident)
+            if call == "poskw":
+                pos, kws = _split(d)
+                return ("ok", common.norm(await t.render_async(pos, **kws)), ident)
+            if call == "ctx":
+                ctx, buf, ns, flags = _ctx_args(t, op, d)
+                n = await t.render_with_context_async(ctx, buf, ns, **flags)
+                return ("ok", common.norm(buf.getvalue()), ident, n)
             return ("ok", common.norm(await t.render_async(**d)), ident)
         if k == "analyze":
             return ("ok", canon_analysis(await t.analyze_async(include_partials=op.get("partials", True))))
@@ -473,6 +518,14 @@ def gen_plan(seed: int, tier: str) -> dict:
             op["partials"] = rng.random() < 0.8
         op["catalog"] = rng.random() < 0.5
         ops.append(op)
+    # calling conventions (own random stream: earlier plans keep their shape)
+    rng2 = random.Random(f"c03call:{seed}")
+    for op in ops:
+        if op["kind"] == "render" and rng2.random() < 0.25:
+            op["call"] = rng2.choice(["pos", "poskw", "ctx", "ctx"])
+            if op["call"] == "ctx":
+                op["ctx"] = {"ns": rng2.random() < 0.5, "partial": rng2.random() < 0.4,
+                             "block_scope": rng2.random() < 0.3}
     for p in progs:
         p.pop("data", None)
     return {"property": PROP, "seed": seed, "cfg": cfg, "programs": progs, "partials": partials,
